@@ -9,6 +9,9 @@ TRUST = ("Trusted base: Go type checker and go/ssa construction (x/tools v0.29.0
 
 # id -> (claimed?, technique, level text, not-decided / note, design ref)
 P = {
+ "C18": (True, "static analysis: insertion/deletion pairing over the router model, frozen goroutine lifetime table with per-class termination rules, escape check on per-call allocations",
+         "Decides that router entries are inserted at one site and removed on every delivery/answer path (re-using the C05/C07/C06/C09 rules), that every go statement of the client runtime is classified per node / per request / per call and satisfies its class's termination rule, and that reply channels and reply maps are not stored into shared state. Necessary structural conditions.",
+         "Not decided: measured goroutine counts and memory; per-reconnect context leaks.", "DESIGN.md section 3, C18"),
  "C12": (True, "static analysis: loop-exit and blocking-operation rules per goroutine root, nil-safety dominance on the Close path, lock-shared flag test for connection creation",
          "Decides once-only total Close, that every client-side library goroutine observes the node context in every loop cycle and blocks only in context-observing / derived-stream / transport-bounded operations, that enqueue answers at Close, queue construction (buffered queue not drained: known finding), nil-safety of the Close path, that a stream error fails pending calls, and that no connection is created behind Close's back. Necessary structural conditions.",
          "Not decided: gRPC teardown time.", "DESIGN.md section 3, C12"),
